@@ -26,7 +26,7 @@ EXPLANATION = ('C05: K<=2 events (exclusive operations, overlapping non-exclusiv
 
 EVENTS = (scen.EV_CHECK, scen.EV_EXIT, scen.EV_XKILL, scen.EV_INCR, scen.EV_DECR, scen.EV_SETNP, scen.EV_RESTART, scen.EV_RELOAD,
           scen.EV_RELOAD_SEQ, scen.EV_RELOAD_TERM, scen.EV_TIME, scen.EV_STOP, scen.EV_START, scen.EV_KILLCMD, scen.EV_SIGNALCMD,
-          scen.EV_SETOPT)
+          scen.EV_SETOPT, scen.EV_INCR_BIG)
 READONLY = ('status', 'list', 'numprocesses', 'options', 'numwatchers', 'globaloptions', 'listsockets', 'dstats')
 STOPPING = (scen.EV_RESTART, scen.EV_RELOAD_SEQ, scen.EV_RELOAD_TERM, scen.EV_STOP, scen.EV_RELOAD, scen.EV_DECR, scen.EV_SETNP,
             scen.EV_SETOPT, scen.EV_CHECK, scen.EV_INCR)
@@ -68,6 +68,7 @@ def c05_block(e1: int, p1: int, e2: int, p2: int, g2: int, d: int) -> bool:
         k = w.kernel
         k.behaviour = BEHS[S.get('beh', 2)]
         w.clock.watchdog = 5.0
+        k.spawn_cost = S.get('spawn_cost', 0.001)
         warm = S.get('warm', 0)
         wa = w.mk_watcher('a', numprocesses=S.get('n0', 2), graceful_timeout=_gt(), warmup_delay=warm,
                           respawn=S.get('respawn', True))
@@ -104,7 +105,7 @@ def c05_block(e1: int, p1: int, e2: int, p2: int, g2: int, d: int) -> bool:
                 pass
             ok = _probe(w) and ok
             # let everything finish; all waits are bounded by the grace periods and warm-up delays
-            bound = 4 * _gt() + 6 * warm + 0.5
+            bound = 4 * _gt() + 6 * warm + 0.5 + 20 * S.get('spawn_cost', 0.001)
             t_lim = w.clock.now + 3 * bound + 5.0
             try:
                 w.run_until(lambda: all(r.replies for e, r in sc.reqs if r.msg['properties'].get('waiting')) and
@@ -187,6 +188,7 @@ def plan(tier):
             sh.append({'e1': e, 'beh': 0, 'warm': 0.3})
     for e in (4, 6, 8, 9, 11):      # graceful_timeout 0 with workers that ignore the stop signal
         sh.append({'e1': e, 'beh': 2, 'gt': 0})
+    sh.append({'e1': 16, 'beh': 0, 'spawn_cost': 0.005})      # many spawns: fork/exec (5 ms each) must not pile up in one loop turn
     sh.append({'e1': 12, 'beh': 0, 'respawn': False})
     sh.append({'e1': 3, 'beh': 0, 'warm': 0.3})
     return [
